@@ -91,6 +91,9 @@ FrameHolds ==
 \* tuple, something L1 allows.
 L2MovesRefine == \A e \in {c \in Calls : c.op \in L2Ops} : L2Allowed(e, F.n, F.cons)
 
+\* clone_node as transcribed produces a fresh tree of the source's shape (text runs merged when consolidation is on)
+L2CloneRefines == \A x \in Live(F.n) : L2CloneRefinesAt(F.n, F.cons, x)
+
 \* every call has at least one allowed outcome (L1 is total)
 Total == \A e \in Calls : EnumAllowed(e, F.n, F.cons) # {}
 
